@@ -159,12 +159,7 @@ def crash_scenario(ctx, seed, quick):
                 try:
                     copy_tree(snap, t.d)
                     t.sc = sc
-                    # the manifest refers to the base tree's log path: point it at this copy
-                    mf = open(t.path("build.ninja")).read().replace(base.log, t.log)
-                    with open(t.path("build.ninja"), "w") as f:
-                        f.write(mf)
-                    # keep the manifest older than everything a command writes
-                    os.utime(t.path("build.ninja"), ns=(os.stat(os.path.join(snap, "build.ninja")).st_mtime_ns,) * 2)
+                    mf = open(t.path("build.ninja")).read()
                     log0 = parse_build_log(t.read(".ninja_log") or b"")[1]
                     rc, so, se = t.run(["-j%d" % j], env={"VERIF_CRASH_POINT": "%s:%d" % (name, n)})
                     ctx.evaluations += 1
